@@ -75,3 +75,7 @@ Definition C15_optimiser_example := ex_run_valid.
 Print Assumptions C15_optimiser_run_is_a_sequence_of_its_moves.
 Print Assumptions C15_optimiser_returns_same_vehicles_exact_and_not_worse.
 Print Assumptions C15_optimiser_stops_at_local_optimum.
+From RS Require Import PipelineOptStmts PipelineOptFacts.
+Theorem C15_pipeline_optimiser_not_worse : forall nw, stmt_optimised_not_worse nw.
+Proof. exact optimised_not_worse. Qed.
+Print Assumptions C15_pipeline_optimiser_not_worse.
